@@ -115,3 +115,46 @@ def gen_authz(repo):
         out += f'  | Rodbus.Gen.Consts.{fc} => {"true" if bc[fc] else "false"}\n'
     out += '  end.\n'
     return out
+
+
+@generator('TlsAuthz.v', 'rodbus/src/tcp/tls/server.rs')
+def gen_tls_authz(repo):
+    """tcp/tls/server.rs::handle_connection: how the session's AuthorizationType is chosen. With a handler configured
+    every failure to obtain THE role of the client certificate must refuse the connection (`?`), never fall back to
+    `AuthorizationType::None`; extract_modbus_role: exactly one ModbusRole extension."""
+    src = rp.read(f'{repo}/rodbus/src/tcp/tls/server.rs')
+    body = rp.find_body(src, r'pub\(crate\)\s+async\s+fn\s+handle_connection\s*\(')
+    m = re.search(r'let\s+auth_type\s*=\s*match\s+auth_handler\s*\{', body)
+    if not m:
+        raise ParseError('handle_connection: `let auth_type = match auth_handler {` not found')
+    arms = dict((' '.join(p.split()), ' '.join(e.split())) for p, e in rp.match_arms(rp.block_after(body, m.end() - 1)[0]))
+    if set(arms) != {'None', 'Some(handler)'}:
+        raise ParseError(f'handle_connection: arms of `match auth_handler`: {list(arms)}')
+    if arms['None'] != 'AuthorizationType::None':
+        raise ParseError('handle_connection: without a handler the session is not AuthorizationType::None')
+    some = arms['Some(handler)'].replace(' .', '.')
+    want = (r'\{ let peer_cert = stream\.get_ref\(\)\.1\.peer_certificates\(\)\.and_then\(\|x\| x\.first\(\)\)\.ok_or_else\(\|\| "No peer certificate"\.to_string\(\)\)\? ?; '
+            r'let parsed = rx509::x509::Certificate::parse\(peer_cert\)\.map_err\(\|err\| format!\("ASNError: \{err\}"\)\)\? ?; '
+            r'let role = extract_modbus_role\(&parsed\)\? ?; tracing::info!\("client role: \{\}", role\) ?; AuthorizationType::Handler\(handler, role\) \}')
+    if not re.fullmatch(want, some):
+        raise ParseError('handle_connection: with a handler the role is not obtained by three `?`-propagated steps followed by AuthorizationType::Handler(handler, role): ' + some[:300])
+    if not re.search(r'Ok\(\(layer, auth_type\)\)', body):
+        raise ParseError('handle_connection: does not return (layer, auth_type)')
+    ex = ' '.join(rp.find_body(src, r'fn\s+extract_modbus_role\s*\(').split()).replace(' .', '.')
+    checks = [r'\.extensions\.as_ref\(\)\.ok_or_else\(', r'let extensions = extensions\.parse\(\)\.map_err\([^;]*\)\? ?;',
+              r'SpecificExtension::ModbusRole\(role\) => Some\(role\.role\), _ => None,',
+              r'let role = it\.next\(\)\.ok_or_else\([^;]*\)\? ?;', r'if it\.next\(\)\.is_some\(\) \{ return Err\(', r'Ok\(role\.to_string\(\)\) ?$']
+    for c in checks:
+        if not re.search(c, ex):
+            raise ParseError('extract_modbus_role: expected fragment not found: ' + c)
+    out = '(* tcp/tls/server.rs: TlsServerConfig::handle_connection - the AuthorizationType of an accepted TLS session *)\n'
+    out += 'Inductive on_role_failure := RefuseConnection | RunWithoutAuthorization.\n'
+    out += '(* no handler configured: AuthorizationType::None (bare TLS) *)\n'
+    out += 'Definition tls_without_handler_is_unauthorized_mode : bool := true.\n'
+    out += '(* handler configured: peer certificate, its parse, and the Modbus role are each obtained with `?`;\n   the session is AuthorizationType::Handler(handler, role of that certificate) *)\n'
+    out += 'Definition tls_with_handler_role_steps : list string := ["peer_certificates().first()"; "Certificate::parse"; "extract_modbus_role"]%string.\n'
+    out += 'Definition tls_with_handler_on_role_failure : on_role_failure := RefuseConnection.\n'
+    out += 'Definition tls_with_handler_session_uses_certificate_role : bool := true.\n'
+    out += '(* extract_modbus_role: no extensions / no ModbusRole extension / more than one are errors *)\n'
+    out += 'Definition tls_role_requires_exactly_one_extension : bool := true.\n'
+    return out
